@@ -33,25 +33,28 @@ CHECKS = {
          "Every placement of On/Off events (repeated, Off first, sharing a wake-up with keyboard events in both orders, while chords or timers are live): held keys released at once, nothing written until Off, fresh start after Off."),
  "C20": ("fault_enumeration", "B", "6-C20", "exhaustive fault injection: every driver call of every explored execution fails in turn",
          "For every execution of the schedule set and every k: the k-th driver call returns an error; the loop must return that error and make no further driver call."),
+ "C13": ("exploration", "C", "5.1, 6-C13", "bounded-exhaustive enumeration of layout programs from a grammar against a reference expander (differential through the real loader)",
+         "Every program of the grammar (alias set-ups x rows x positions x all printable ASCII characters; single mappings over modifier/output/repeat/absorbing forms with neighbours; whole-row programs; ordered tuples of sources): the converter's output equals the hand-written expansion, group by group in source order; respelled variants convert identically."),
+ "C14": ("exploration", "C", "6-C14", "bounded-exhaustive input enumeration of the real load_layout_from_file in worker processes + explicit-state exploration of every accepted layout",
+         "Every byte string up to the length bound, schema-shaped JSON over an atom menu, all single (thorough: pair) structure-aware mutations of seed layouts, repeated keys/aliases at every position: load returns Ok or Err, never panics or dies; every accepted layout is explored by Engine A to a fixpoint without a panic."),
+ "C15": ("exploration", "C", "5.4, 6-C15", "exhaustive enumeration over all key codes and a layout shape family; save with the installer's call, reload with the real loader",
+         "All key codes the tool knows in every syntactic position, the shape family with extreme numbers, the converted fixed corpus: the reloaded mapping list equals the saved one; also through the real private write_layout_to_global_config into a private /etc inside a mount namespace."),
+ "C16": ("exploration", "C", "5.4, 6-C16", "bounded-exhaustive enumeration of device-list texts and exclude sets; end-to-end runs of the real binary in a private mount namespace",
+         "Every sequence of device entries up to the bound through both private extractors (independence of neighbours, agreement of the two discovery paths), every exclude set against an independent glob matcher, and the real binary's list_keyboards / --all-keyboards / --dev-file --only-if-keyboard selection over fabricated /proc, /sys and /dev."),
+ "C17": ("exploration", "C", "5.2, 6-C17", "exhaustive enumeration (all Unicode scalar values, all short strings over the syntax alphabet, pattern lists) against a reference systemd ExecStart reader",
+         "Every input goes through the real build_service_text; the reference reader (split, unquote, C-unescape, % specifiers, $ variables) must return exactly the expected argument vector with every pattern byte-identical."),
+ "C18": ("exploration", "C", "5.3, 6-C18", "exhaustive enumeration over all key codes, short batches and record-kind sequences; real writer and reader over a pipe with libc::input_event as layout oracle",
+         "Every key code x press/release, every short batch over boundary codes: byte length, every record's type/code/value at libc's offsets, exactly one trailing SYN_REPORT; the real reader returns the same events then EAGAIN and skips every foreign record kind in every sequence up to the bound."),
  "C19": ("model_checking", "A", "6-C19", "explicit-state BFS over the real Mapper::step; fold of the emitted stream",
          "Within every step's event list and every release_all batch, from every reachable state: press only of an up key, release only of a down key."),
 }
 
-PENDING = {
- #"C10": "check under construction (Engine B, event loop schedules)",
- #"C11": "check under construction (Engine B, virtual clock)",
- #"C12": "check under construction (Engine B, tablet events)",
- "C13": "check under construction (Engine C, reference expander)",
- "C14": "check under construction (Engine C + A)",
- "C15": "check under construction (Engine C)",
- "C16": "check under construction (Engine C)",
- "C17": "check under construction (Engine C, reference systemd reader)",
- "C18": "check under construction (Engine C, pipe + libc::input_event)",
- #"C20": "check under construction (Engine B, fault enumeration)",
-}
+PENDING = {}
 B_NOTE = ("Trusted: the environment model (edge-triggered readiness, non-blocking reads, poll faithful to its timeout), the virtual clock seam (the engine fails as machinery if the loop arms a timer without reading it), "
           "a separate fresh real Mapper as the reference for what each read event must produce. Bounds: history length, deviation count and time-out count per family (in the evidence).")
-NOTES = {"C10": B_NOTE, "C11": B_NOTE, "C12": B_NOTE, "C20": B_NOTE}
+C_NOTE = ("Trusted: the reference model/oracle named in the technique field (kept small, in /verif/harness/src), the enumeration code, the hooks that expose private functions unchanged. "
+          "Bounds are stated in the evidence `rule`; within them the enumeration is complete (no sampling).")
+NOTES = {"C13": C_NOTE, "C14": C_NOTE, "C15": C_NOTE, "C16": C_NOTE, "C17": C_NOTE, "C18": C_NOTE, "C10": B_NOTE, "C11": B_NOTE, "C12": B_NOTE, "C20": B_NOTE}
 
 def repo_hook_commits():
     out = subprocess.run(["git", "-C", "/repo", "log", "--format=%H %s"], capture_output=True, text=True).stdout
